@@ -271,7 +271,7 @@ def run_case(cid, case_id, tier="quick", known_regions=None, seed=0):
     c = REGISTRY[cid]
     case = case_value(c, case_id)
     timeout = 20000 if tier == "quick" else 90000
-    budget_s = getattr(c, "budget_s", 300)
+    budget_s = getattr(c, "budget_s", 600)
     if tier != "quick":
         budget_s = max(1800, 4 * budget_s)      # both back ends on every obligation
     both = tier == "thorough"
